@@ -231,22 +231,26 @@ def extreme_scale_replay(key, mode, case=""):
             X, Y, NX, NY = [np.array(a, dtype=float) for a in cfg]
             X, Y = X * scale + shift * scale, Y * scale + shift * scale
             kk = 1.0 / scale
-            par = [] if n == 0 else [0.9 * kk] if n == 1 else [1.1 * kk, 0.0 if case == "ki==0" else 0.4 * kk]
+            pars = [[]] if n == 0 else [[0.9 * kk]] if n == 1 else [[1.1 * kk, 0.0 if case == "ki==0" else 0.4 * kk]]
+            if n == 2 and case != "ki==0" and label == "generic" and scale == 1.0:
+                # the complex-wavenumber case also at a purely imaginary and at a decaying-the-other-way wavenumber (Re k == 0, Im k < 0)
+                pars += [[0.0, 0.4 * kk], [1.1 * kk, -0.4 * kk], [0.0, -0.3 * kk]]
             f = pyfunc(kernel_function(key, mode))
-            try:
-                out = f(X, Y, NX, NY, np.array(par, dtype=float))
-            except Exception as ex:  # noqa
-                return {"violates": True, "observed": "%s: %s" % (type(ex).__name__, ex), "scale": scale}
-            for j in range(2):
-                x, y, nx, ny = column(mode, X, Y, NX, NY, j)
-                sv = complex(KS.SPEC[key](x, y, nx, ny, par))
-                if not np.isfinite(sv) or abs(sv) > 1e200 or abs(sv) < 1e-200:
-                    continue      # the specification itself leaves the floating-point range at this scale: no verdict from this sample
-                e = abs(complex(out[j]) - sv) / max(1e-300, abs(sv))
-                if not np.isfinite(e):
-                    e = 1.0
-                if e > worst:
-                    worst, where = e, {"scale": scale, "shift": shift, "configuration": label, "observed": [complex(out[j]).real, complex(out[j]).imag], "required": [sv.real, sv.imag]}
+            for par in pars:
+                try:
+                    out = f(X, Y, NX, NY, np.array(par, dtype=float))
+                except Exception as ex:  # noqa
+                    return {"violates": True, "observed": "%s: %s" % (type(ex).__name__, ex), "scale": scale}
+                for j in range(2):
+                    x, y, nx, ny = column(mode, X, Y, NX, NY, j)
+                    sv = complex(KS.SPEC[key](x, y, nx, ny, par))
+                    if not np.isfinite(sv) or abs(sv) > 1e200 or abs(sv) < 1e-200:
+                        continue      # the specification itself leaves the floating-point range at this scale: no verdict from this sample
+                    e = abs(complex(out[j]) - sv) / max(1e-300, abs(sv))
+                    if not np.isfinite(e):
+                        e = 1.0
+                    if e > worst:
+                        worst, where = e, {"scale": scale, "shift": shift, "configuration": label, "observed": [complex(out[j]).real, complex(out[j]).imag], "required": [sv.real, sv.imag]}
     # far from the origin the difference y - x loses digits: relative accuracy 1e-16 * 1e5 / 1 in the distance
     return {"violates": bool(worst > 1e-8), "relative_error": worst, "where": where}
 
